@@ -235,6 +235,20 @@ TraceObj(s, o) ==
 \* the root's Collect::trace
 TraceRoot(s) == TrWeakSet(TrSeq([s |-> s, m |-> 0], s.rootS), s.rootW)
 
+\* Fault injection (C11): a Collect::trace implementation that unwinds after having reported
+\* `pos` of the strong pointers it holds (AllPos: after every strong and weak pointer).
+AllPos == 99
+Prefix(q, n) == IF n >= Len(q) THEN q ELSE SubSeq(q, 1, n)
+PartialTraceObj(s, o, pos) ==
+  LET st == TrSeq([s |-> [s EXCEPT !.color[o] = "B"], m |-> 0], Prefix(s.strong[o], pos))
+  IN IF pos = AllPos THEN TrWeakSet(st, s.weak[o]) ELSE st
+PartialTraceRoot(s, pos) ==
+  LET st == TrSeq([s |-> s, m |-> 0], Prefix(s.rootS, pos))
+  IN IF pos = AllPos THEN TrWeakSet(st, s.rootW) ELSE st
+\* does marking this object call into a user Collect::trace at all?
+Ticks(s, o) == s.kind[o] # "S" /\ ~(s.kind[o] = "O" /\ s.strong[o] = <<>>)
+NoFaultRec == [at |-> -1, pos |-> 0]
+
 \* Context::sweep_one with sweep # None.  Returns [s, earn] with earn in {"free", "keep"}.
 SweepOne(s) ==
   LET o  == s.sweep
@@ -313,17 +327,25 @@ Iter(s, c) ==
   CASE s.phase = "Sleep" ->
          After([s EXCEPT !.phase = "Mark", !.mutSinceWake = FALSE], [c EXCEPT !.slept = TRUE])
     [] s.phase = "Mark" ->
-         IF s.gray # <<>> THEN
-           LET o == Last(s.gray)
-               r == TraceObj([s EXCEPT !.gray = Front(@)], o)
-           IN After(r.s, Spend(c, 1, r.m, 0))
-         ELSE IF s.grayAgain # <<>> THEN
-           LET o == Last(s.grayAgain)
-               r == TraceObj([s EXCEPT !.grayAgain = Front(@)], o)
-           IN After(r.s, Spend(c, 1, r.m, 0))
+         IF s.gray # <<>> \/ s.grayAgain # <<>> THEN
+           LET fromGray == s.gray # <<>>
+               o  == IF fromGray THEN Last(s.gray) ELSE Last(s.grayAgain)
+               s0 == IF fromGray THEN [s EXCEPT !.gray = Front(@)] ELSE [s EXCEPT !.grayAgain = Front(@)]
+           IN IF c.fault.at = 0 /\ Ticks(s, o)
+              THEN \* the trace call unwinds: mark_one's DropGuard re-queues the object, the panic
+                   \* leaves do_collection
+                   [s |-> GrayAgain(PartialTraceObj(s0, o, c.fault.pos).s, o),
+                    c |-> [c EXCEPT !.fault = NoFaultRec], done |-> TRUE]
+              ELSE LET r  == TraceObj(s0, o)
+                       c1 == IF Ticks(s, o) /\ c.fault.at > 0 THEN [c EXCEPT !.fault.at = @ - 1] ELSE c
+                   IN After(r.s, Spend(c1, 1, r.m, 0))
          ELSE IF s.rootNT THEN
-           LET r == TraceRoot(s)
-           IN After([r.s EXCEPT !.rootNT = FALSE], Spend(c, 0, r.m, 0))
+           IF c.fault.at = 0
+           THEN \* the root's trace unwinds: root_needs_trace stays set
+                [s |-> PartialTraceRoot(s, c.fault.pos).s, c |-> [c EXCEPT !.fault = NoFaultRec], done |-> TRUE]
+           ELSE LET r  == TraceRoot(s)
+                    c1 == IF c.fault.at > 0 THEN [c EXCEPT !.fault.at = @ - 1] ELSE c
+                IN After([r.s EXCEPT !.rootNT = FALSE], Spend(c1, 0, r.m, 0))
          ELSE IF stop <= 0 THEN [s |-> s, c |-> c, done |-> TRUE]
          ELSE After([s EXCEPT !.phase = "Sweep", !.sweep = s.head], c)
     [] s.phase = "Sweep" ->
@@ -341,10 +363,12 @@ Iter(s, c) ==
 RECURSIVE Loop(_, _)
 Loop(s, c) == LET r == Iter(s, c) IN IF r.done THEN r.s ELSE Loop(r.s, r.c)
 
-\* A public collection call.  b = 0 stands for "called with no debt".
-Call(s, kind, b, g, cont) ==
+\* A public collection call.  b = 0 stands for "called with no debt".  `fault` arms a trace
+\* panic at the fault.at-th trace invocation of this call (NoFaultRec: none).
+CallF(s, kind, b, g, cont, fault) ==
   IF kind \in PayKinds /\ (b = 0 \/ Count(s) = 0) THEN s
-  ELSE Loop(s, [kind |-> kind, slept |-> FALSE, budget |-> b, gran |-> g, cont |-> cont])
+  ELSE Loop(s, [kind |-> kind, slept |-> FALSE, budget |-> b, gran |-> g, cont |-> cont, fault |-> fault])
+Call(s, kind, b, g, cont) == CallF(s, kind, b, g, cont, NoFaultRec)
 
 FinishCycle(s)   == Call(s, "finish_cycle", 0, "P1", FALSE)
 FinishMarking(s) == Call(s, "finish_marking", 0, "P1", FALSE)
